@@ -11,7 +11,9 @@ Oracle (independent of the model): textbook formulas evaluated with exact ration
 rigid-motion invariance (exact rational motions from integer quaternions / Householder reflections,
 coordinates rounded to doubles for the implementation), reflection sign flip, reversal, ranges,
 degrees = radians * 180/pi, agreement of row-wise / matrix / index-based / Molecule.measure forms,
-brute-force bond list, relabelling equivariance.
+brute-force bond list, relabelling equivariance; and the `layout` stream: the same point values delivered as views of ONE
+coordinate buffer (overlapping / identical / interleaved / reversed slices, the same object twice, row views, Fortran / column-sliced /
+strided / negatively strided / read-only carriers) must give the textbook values and the values obtained from independent copies.
 """
 from __future__ import annotations
 
@@ -62,14 +64,23 @@ ASSUMPTIONS = [
     "bond pairs whose distance is within 1e-9 of (ri+rj)*thr are excluded from generation; thresholds are positive",
     "symbols and geometry have equal length; inputs are finite doubles; indices are Python ints",
     "batched inputs have >= 1 row; mixed scalar/batched shapes follow numpy broadcasting (rows 1 vs n)",
+    "layout stream: arguments are float64 ndarrays (any strides, possibly aliasing each other, possibly read-only) or nested lists; distance_matrix entries between "
+    "two views of the very same buffer row (coincident points, outside the quantifier) are compared with the model only, never demanded by the oracle",
 ]
 RULE = (
     "tasks = geom (4 points in [-10,10]^3 from 6 point styles x exact rational motion (integer quaternion, optional Householder reflection, rational "
     "translation) x degrees flag), batch (1-6 rows, equal / broadcast / incompatible shapes, all three functions + distance_matrix), measure "
     "(1-8 points, single/list index specs incl. negative, out-of-range, wrong-arity and empty specs; Molecule.measure), conn (1-15 atoms over the whole "
     "periodic table incl. radius-less and unknown symbols, 9 thresholds, default_connectivity, motion + permutation), collinear (exact 0/180 degree "
-    "triples). A case is distinct by its full input; non-trivial when points are in general position (no coordinate plane symmetry) or an error/bond "
-    "branch is hit."
+    "triples), layout (the values depend on the point values only, not on where the arrays live: 4-12 points in ONE coordinate buffer carried as "
+    "C / Fortran / column-slice-of-a-wider-table / every-other-row / negative-row-stride / negative-column-stride memory, writable or read-only; "
+    "distance_matrix on overlapping equal-length windows P[s:s+m] vs P[s+k:s+k+m] (also strided), overlapping unequal windows, the same object twice, "
+    "two views of the same rows, disjoint, interleaved P[::2] vs P[1::2], a window vs itself reversed, view vs copy; compute_distance/angle/dihedral on "
+    "shifted windows along the chain (P[:-3],P[1:-2],P[2:-1],P[3:] and wider shifts, reversed, interleaved P[j::k], 1-d row views, broadcast "
+    "row-view vs window, views mixed with copies and lists); measure_coordinates and guess_connectivity on non-contiguous / reversed / flat-strided "
+    "views; each compared with the textbook value of the resolved points, with the call on independent copies, and with the model). "
+    "A case is distinct by its full input; non-trivial when points are in general position (no coordinate plane symmetry) or an error/bond "
+    "branch is hit, and for layout cases when arguments share memory or the carrier is not a fresh writable C array."
 )
 LEVEL_TEXT = (
     "proof, partial: invariance, sign-flip, reversal, textbook-agreement, exactness of the bond criterion and form agreement are proved for all "
@@ -726,7 +737,302 @@ def conn_check(t, model, out: Outcome):
     out.sample({"task": "conn", "symbols": syms, "thr": thr, "impl": ci[:120], "model": model[0][:120]}, limit=12)
 
 
+
+# ---- layout -----------------------------------------------------------------------------
+# The measured values depend on the point VALUES only.  Every other stream hands the implementation freshly built, independent,
+# C-contiguous arrays (or lists); here the same values arrive as views of ONE coordinate buffer: overlapping / identical /
+# interleaved / reversed slices, the very same object passed twice, 1-d row views, Fortran-ordered / column-sliced / row-strided /
+# negatively strided / read-only carriers, with copies and lists mixed in.  Oracle: textbook value of the resolved point values
+# (exact rationals + one libm call) and agreement with the call on independent copies.
+
+CARRIERS = ["C", "F", "wide", "tall", "neg", "colrev"]
+JUNK = 777.25
+
+
+def lay_base(pts, carrier, readonly):
+    """(n,3) array holding pts, laid out in memory as `carrier` says (a view of a larger / differently ordered buffer)"""
+    A = np.array(pts, dtype=float).reshape(-1, 3)
+    n = len(A)
+    if carrier == "C":
+        W = A.copy()
+        sl = (slice(None), slice(None))
+    elif carrier == "F":
+        W = np.asfortranarray(A)
+        sl = (slice(None), slice(None))
+    elif carrier == "wide":  # columns 1..3 of a 5-column table
+        W = np.full((n, 5), JUNK)
+        W[:, 1:4] = A
+        sl = (slice(None), slice(1, 4))
+    elif carrier == "tall":  # every other row of a longer table
+        W = np.full((2 * n + 1, 3), JUNK)
+        W[1::2] = A
+        sl = (slice(1, None, 2), slice(None))
+    elif carrier == "neg":  # stored backwards, seen through a negative row stride
+        W = A[::-1].copy()
+        sl = (slice(None, None, -1), slice(None))
+    elif carrier == "colrev":  # stored as (z,y,x), seen through a negative column stride
+        W = A[:, ::-1].copy()
+        sl = (slice(None), slice(None, None, -1))
+    else:
+        raise ValueError(carrier)
+    if readonly:
+        W.flags.writeable = False
+    base = W[sl]
+    assert base.shape == (n, 3) and (base == A).all()
+    return base
+
+
+def lay_args(base, specs, readonly=False):
+    built = []
+    for sp in specs:
+        k = sp[0]
+        if k in ("v", "c", "l"):
+            x = base[slice(sp[1], sp[2], sp[3])]
+            if k == "c":
+                x = np.array(x, dtype=float, order="C", copy=True)
+            elif k == "l":
+                x = x.tolist()
+        elif k in ("r", "rc", "rl"):
+            x = base[sp[1]]
+            if k == "rc":
+                x = x.copy()
+            elif k == "rl":
+                x = x.tolist()
+        elif k == "same":
+            x = built[sp[1]]
+        elif k == "flat":  # 1-d strided view of the flattened coordinates
+            W = np.full(2 * base.size, JUNK)
+            W[::2] = np.array(base, dtype=float).ravel()
+            if readonly:
+                W.flags.writeable = False
+            x = W[::2]
+        else:
+            raise ValueError(k)
+        built.append(x)
+    return built
+
+
+def lay_vals(args):
+    """the point values each argument denotes: list (per argument) of float triples"""
+    return [np.array(x, dtype=float).reshape(-1, 3).tolist() for x in args]
+
+
+def lay_row_ok(E, k):
+    """row of k exact points inside the quantifier: pairwise >= 0.1 apart, planes well defined"""
+    if any(dot(sub(E[i], E[j]), sub(E[i], E[j])) < Fr(1, 100) for i in range(k) for j in range(i)):
+        return False
+    return k < 3 or general_position(E[:k])
+
+
+LAY_K = {"dist": 2, "angle": 3, "dihedral": 4}
+
+
+def lay_resolve(t):
+    base = lay_base(unhex(t["buf"]), t["carrier"], t["readonly"])
+    args = lay_args(base, t["args"], t["readonly"])
+    return base, args, lay_vals(args)
+
+
+def lay_measurements(t):
+    return [t["spec"]] if t["single"] else t["spec"]
+
+
+def layout_inside(t) -> bool:
+    """is the task inside the property's quantifier (used by the generator; no qcelemental needed)"""
+    _, _, vals = lay_resolve(t)
+    E = [fpts(v) for v in vals]
+    fn = t["fn"]
+    if fn == "dm":
+        return len(E[0]) >= 1 and len(E[1]) >= 1 and any(p != q for p in E[0] for q in E[1])
+    if fn in LAY_K:
+        rows = rows_of(E, LAY_K[fn])
+        return rows is not None and all(lay_row_ok(rw, LAY_K[fn]) for rw in rows)
+    if fn == "measure":
+        n = len(E[0])
+        return all(len(set(m)) == len(m) and all(0 <= i < n for i in m) and lay_row_ok([E[0][i] for i in m], len(m)) for m in lay_measurements(t))
+    return True
+
+
+def layout_lines(t):
+    _, _, vals = lay_resolve(t)
+    E = [fpts(v) for v in vals]
+    fn = t["fn"]
+    if fn == "dm":
+        return ["DM|" + pts_s(E[0]) + "|" + pts_s(E[1])]
+    if fn in LAY_K:
+        return [{"dist": "BD|", "angle": "BA|", "dihedral": "BH|"}[fn] + "|".join(pts_s(x) for x in E)]
+    if fn == "measure":
+        spec = "S|" + ",".join(map(str, t["spec"])) if t["single"] else "L|" + ";".join(",".join(map(str, m)) for m in t["spec"])
+        return ["M|" + pts_s(E[0]) + "|" + spec]
+    c = t["conn"]
+    return [conn_line([radius_of(s) for s in c["symbols"]], E[0], c["thr"], c["dc"])]
+
+
+def tb_rows(fn, rows):
+    f = {"dist": tb_distance, "angle": tb_angle, "dihedral": tb_dihedral}[fn]
+    return [f(*rw) for rw in rows]
+
+
+def lay_differs(fn, got, exp, fac=1.0):
+    if fn == "dihedral":
+        return angdiff(got / fac, exp) > TOL
+    return not close(got / fac, exp, TOL)
+
+
+def layout_check(t, model, out: Outcome):
+    u = util()
+    fn = t["fn"]
+    base, args, vals = lay_resolve(t)
+    E = [fpts(v) for v in vals]
+    indep = [np.array(v, dtype=float) if np.ndim(a) == 2 else np.array(v[0], dtype=float) for a, v in zip(args, vals)]  # fresh, independent, C-contiguous
+    arrs = [a for a in args if isinstance(a, np.ndarray)]
+    shares = any(x is y or np.shares_memory(x, y) for i, x in enumerate(arrs) for y in arrs[:i])
+    out.evaluations += 1
+    out.count(f"layout:{fn}:{t['mode']}")
+    out.count("layout:carrier:" + t["carrier"] + (":readonly" if t["readonly"] else ""))
+    if shares:
+        out.count("layout:arguments_share_memory")
+    if fn in ("dm",) + tuple(LAY_K) and len(arrs) >= 2 and shares and len({np.shape(a) for a in arrs}) == 1 and all(x is not y for i, x in enumerate(arrs) for y in arrs[:i]):
+        out.count(f"layout:{fn}:distinct_equal_shape_overlapping_views")
+    if shares or t["carrier"] != "C" or t["readonly"]:
+        out.nontrivial("L" + json.dumps([t["buf"], t["carrier"], t["readonly"], fn, t["args"], t.get("spec")]))
+    kind = "oracle:layout:" + fn
+    how = f"(arguments: {t['args']} of one '{t['carrier']}'{' read-only' if t['readonly'] else ''} coordinate buffer)"
+    deg = t.get("degrees", False)
+    fac = 180.0 / math.pi if deg else 1.0
+    mvals = None  # model's expected floats, aligned with `got`
+
+    if fn == "dm":
+        r = call(u.distance_matrix, *args)
+        na, nb = len(E[0]), len(E[1])
+        if r[0] != "ok" or np.shape(r[1]) != (na, nb):
+            V(out, kind, t, f"distance_matrix failed / wrong shape {how}", observed=repr(r[1])[:200], expected=[na, nb])
+            return
+        dm = np.asarray(r[1], dtype=float)
+        ref = call(u.distance_matrix, *indep)
+        done = False
+        for i in range(na):
+            for j in range(nb):
+                if E[0][i] == E[1][j]:
+                    continue  # coincident points are outside the quantifier (the model comparison below still covers them)
+                e = tb_distance(E[0][i], E[1][j])
+                if not close(dm[i][j], e, TOL):
+                    V(out, kind, t, f"distance_matrix[{i}][{j}] is not |a_{i} - b_{j}| {how}", observed=float(dm[i][j]), expected=e)
+                    done = True
+                elif ref[0] == "ok" and not close(dm[i][j], ref[1][i][j], TOL_FORMS):
+                    V(out, kind, t, f"distance_matrix[{i}][{j}] differs from the same call on independent copies of the arguments {how}", observed=float(dm[i][j]), expected=float(ref[1][i][j]))
+                    done = True
+                if done:
+                    break
+            if done:
+                break
+        if not done and na == nb:
+            s = call(u.compute_distance, *indep)
+            for i in range(na):
+                if E[0][i] != E[1][i] and (s[0] != "ok" or not close(dm[i][i], s[1][i], TOL_FORMS * max(1.0, abs(s[1][i])))):
+                    V(out, kind, t, f"diag(distance_matrix)[{i}] != row-wise compute_distance of the same points {how}", observed=float(dm[i][i]), expected=repr(s[1])[:200])
+                    break
+        if model is not None:
+            mrows = model[0][3:].split(";")
+            okm = len(mrows) == na and all(len(row.split()) == nb for row in mrows)
+            if okm:
+                okm = all(close(dm[i][j], ev_dist(pr(x)), TOL) for i, row in enumerate(mrows) for j, x in enumerate(row.split()))
+            if not okm:
+                MM(out, t, f"distance_matrix vs model {how}", observed=repr(dm)[:200], expected=model[0][:200])
+        out.sample({"task": "layout", "fn": fn, "mode": t["mode"], "carrier": t["carrier"], "args": t["args"], "shares_memory": shares}, limit=6)
+        return
+
+    if fn in LAY_K:
+        k = LAY_K[fn]
+        f = {"dist": u.compute_distance, "angle": u.compute_angle, "dihedral": u.compute_dihedral}[fn]
+        kw = {} if fn == "dist" else {"degrees": deg}
+        if fn == "dist":
+            fac = 1.0
+        rows = rows_of(E, k)
+        r = call(f, *args, **kw)
+        if r[0] != "ok" or np.shape(r[1]) != (len(rows),):
+            V(out, kind, t, f"compute_{fn} failed / wrong shape {how}", observed=repr(r[1])[:200], expected=[len(rows)])
+            return
+        got = [float(x) for x in r[1]]
+        exp = tb_rows(fn, rows)
+        ref = call(f, *indep, **kw)
+        for i, (g, e) in enumerate(zip(got, exp)):
+            if lay_differs(fn, g, e, fac):
+                V(out, kind, t, f"row {i} of compute_{fn} is not the textbook value of that row's points {how}", observed=g, expected=e * fac)
+                break
+            if ref[0] == "ok" and lay_differs(fn, g, float(ref[1][i]) / fac, fac):
+                V(out, kind, t, f"row {i} of compute_{fn} differs from the same call on independent copies of the arguments {how}", observed=g, expected=float(ref[1][i]))
+                break
+        if model is not None:
+            ml = model[0].split()
+            if ml[1:2] == ["err"] or len(ml) - 1 != len(got):
+                MM(out, t, f"compute_{fn}: model has {model[0][:80]} {how}", observed=got[:8], expected=model[0][:200])
+            else:
+                mvals = []
+                for tok in ml[1:]:
+                    a = [pr(x) for x in tok.split(":")]
+                    mvals.append(ev_dist(a[0]) if fn == "dist" else (ev_angle(*a) if fn == "angle" else ev_dihedral(*a)))
+                for i, (g, e) in enumerate(zip(got, mvals)):
+                    if lay_differs(fn, g, e, fac):
+                        MM(out, t, f"compute_{fn} row {i} vs model {how}", observed=g, expected=e * fac)
+                        break
+        out.sample({"task": "layout", "fn": fn, "mode": t["mode"], "carrier": t["carrier"], "args": t["args"], "shares_memory": shares}, limit=6)
+        return
+
+    if fn == "measure":
+        ms = lay_measurements(t)
+        r = call(u.measure_coordinates, args[0], t["spec"], degrees=deg)
+        if r[0] != "ok":
+            V(out, kind, t, f"measure_coordinates raised {r[1]} on a valid specification {how}", observed=r[1])
+            return
+        got = [r[1]] if t["single"] else list(r[1])
+        if (t["single"] and isinstance(r[1], (list, tuple, np.ndarray))) or len(got) != len(ms):
+            V(out, kind, t, f"measure_coordinates result structure {how}", observed=repr(r[1])[:200], expected=len(ms))
+            return
+        for v, m in zip(got, ms):
+            pts = [E[0][i] for i in m]
+            name = {2: "dist", 3: "angle", 4: "dihedral"}[len(m)]
+            e = tb_rows(name, [pts])[0]
+            if lay_differs(name, float(v), e, 1.0 if name == "dist" else fac):
+                V(out, kind, t, f"measure_coordinates({m}) is not the textbook value of the picked points {how}", observed=float(v), expected=e * (1.0 if name == "dist" else fac))
+                break
+        if model is not None:
+            ml = model[0].split()
+            if ml[1] == "err" or len(ml) - 2 != len(got) or (ml[1] == "one") != t["single"]:
+                MM(out, t, f"measure_coordinates structure vs model {how}", observed=repr(r[1])[:120], expected=model[0][:200])
+            else:
+                for v, tok in zip(got, ml[2:]):
+                    kk, e = ev_meas(tok)
+                    name = {"D": "dist", "A": "angle", "H": "dihedral"}[kk]
+                    if lay_differs(name, float(v), e, 1.0 if kk == "D" else fac):
+                        MM(out, t, f"measure_coordinates value for {tok[:40]} vs model {how}", observed=float(v), expected=e)
+                        break
+        return
+
+    # conn
+    import qcelemental as qcel
+
+    c = t["conn"]
+    kw = {"threshold": c["thr"]}
+    if c["dc"] is not None:
+        kw["default_connectivity"] = c["dc"]
+    if c.get("default_thr"):
+        kw.pop("threshold")
+    r = call(qcel.molutil.guess_connectivity, c["symbols"], args[0], **kw)
+    if r[0] != "ok":
+        V(out, kind, t, f"guess_connectivity raised {r[1]} {how}", observed=r[1])
+        return
+    res = list(r[1])
+    pairs = [(int(x[0]), int(x[1])) for x in res]
+    exp = brute_bonds([radius_of(s) for s in c["symbols"]], E[0], c["thr"])
+    if len(set(pairs)) != len(pairs) or set(pairs) != set(exp) or any(i >= j for i, j in pairs):
+        V(out, kind, t, f"bond list is not exactly the pairs under the criterion {how}", observed=pairs[:40], expected=exp[:40])
+    if model is not None and model[0] != canon_conn(res, c["dc"]):
+        MM(out, t, f"guess_connectivity vs model {how}", observed=canon_conn(res, c["dc"])[:300], expected=model[0][:300])
+
+
 TASKS = {
+    "layout": (layout_lines, layout_check),
     "geom": (geom_lines, geom_check),
     "batch": (batch_lines, batch_check),
     "measure": (measure_lines, measure_check),
@@ -1016,6 +1322,122 @@ def gen_conn(rng):
         return {"kind": "conn", "symbols": syms, "geom": hexpts(pts), "thr": thr, "default_thr": default_thr, "dc": dc, "motion": mo, "perm": perm, "flat": rng.random() < 0.3}
 
 
+LAYOUT_DM_MODES = ["overlap", "overlap", "overlap", "overlap_strided", "overlap_unequal", "same_object", "same_view", "disjoint", "interleaved", "reversed", "overlap_copy", "independent"]
+LAYOUT_ROW_MODES = ["windows", "windows", "windows", "windows_reversed", "interleaved", "row_views", "broadcast", "windows_mixed", "independent"]
+
+
+def _win(s, m, step=1):
+    """slice spec for rows s, s+step, … (m rows); negative step walks down from s"""
+    stop = s + m * step
+    return [s, None if stop < 0 else stop, step]
+
+
+def gen_layout_args(rng, fn, n):
+    """argument view specs into an n-row buffer; returns (mode, specs) or None if n is too small for the mode drawn"""
+    if fn == "dm":
+        mode = rng.choice(LAYOUT_DM_MODES)
+        if mode in ("overlap", "overlap_copy", "independent"):
+            m = rng.randint(2, n - 1)
+            k = rng.randint(1, min(m - 1, n - m))
+            s = rng.randint(0, n - m - k)
+            kb = "v" if mode == "overlap" else "c"
+            return mode, [["c" if mode == "independent" else "v"] + _win(s, m), [kb] + _win(s + k, m)]
+        if mode == "overlap_strided":
+            if (n - 1) // 2 < 2:
+                return None
+            m = rng.randint(2, (n - 1) // 2)
+            k = rng.randint(1, m - 1)
+            if 2 * (m - 1 + k) > n - 1:
+                return None
+            return mode, [["v"] + _win(0, m, 2), ["v"] + _win(2 * k, m, 2)]
+        if mode == "overlap_unequal":
+            s1, s2 = rng.randint(0, n - 3), rng.randint(0, n - 3)
+            m1, m2 = rng.randint(2, n - s1), rng.randint(2, n - s2)
+            if m1 == m2 or max(s1, s2) >= min(s1 + m1, s2 + m2):
+                return None
+            return mode, [["v"] + _win(s1, m1), ["v"] + _win(s2, m2)]
+        if mode in ("same_object", "same_view"):
+            m = rng.randint(2, n)
+            s = rng.randint(0, n - m)
+            return mode, [["v"] + _win(s, m), ["same", 0] if mode == "same_object" else ["v"] + _win(s, m)]
+        if mode == "disjoint":
+            h = rng.randint(1, n - 1)
+            return mode, [["v", 0, h, 1], ["v", h, n, 1]]
+        if mode == "interleaved":
+            return mode, [["v", 0, None, 2], ["v", 1, None, 2]]
+        if mode == "reversed":
+            m = rng.randint(2, n)
+            s = rng.randint(0, n - m)
+            return mode, [["v"] + _win(s, m), ["v"] + _win(s + m - 1, m, -1)]
+        raise ValueError(mode)
+    k = LAY_K[fn]
+    mode = rng.choice(LAYOUT_ROW_MODES)
+    if mode in ("windows", "windows_reversed", "windows_mixed", "broadcast", "independent"):
+        d = rng.choice([1, 1, 1, 2, 3])
+        if n - (k - 1) * d < 1:
+            return None
+        m = rng.randint(1, n - (k - 1) * d)
+        s = rng.randint(0, n - (k - 1) * d - m)
+        if mode == "windows_reversed":
+            specs = [["v"] + _win(s + j * d + m - 1, m, -1) for j in range(k)]
+        else:
+            specs = [["c" if mode == "independent" else "v"] + _win(s + j * d, m) for j in range(k)]
+        if rng.random() < 0.3:
+            specs.reverse()
+        if mode == "windows_mixed":
+            for j in rng.sample(range(k), rng.randint(1, k - 1)):
+                specs[j][0] = rng.choice(["c", "l"])
+        if mode == "broadcast":
+            for j in rng.sample(range(k), rng.randint(1, k - 1)):
+                i = rng.randrange(n)
+                specs[j] = rng.choice([["r", i], ["r", i], ["rl", i], ["v", i, i + 1, 1]])
+        return mode, specs
+    if mode == "interleaved":
+        m = n // k
+        if m < 1:
+            return None
+        return mode, [["v", j, min(n, j + k * m), k] for j in range(k)]
+    if mode == "row_views":
+        if n < k:
+            return None
+        idx = rng.sample(range(n), k)
+        return mode, [[rng.choice(["r", "r", "r", "rc", "rl"]), i] for i in idx]
+    raise ValueError(mode)
+
+
+def gen_layout(rng, fn):
+    carrier = rng.choice(CARRIERS)
+    readonly = rng.random() < 0.25
+    if fn == "conn":
+        c = gen_conn(rng)
+        flat = rng.random() < 0.3
+        return {"kind": "layout", "fn": "conn", "mode": "flat_view" if flat else "whole", "buf": c["geom"], "carrier": carrier, "readonly": readonly,
+                "args": [["flat"]] if flat else [["v", None, None, 1]], "conn": {k: c[k] for k in ("symbols", "thr", "default_thr", "dc")}}
+    while True:
+        n = rng.randint(4, 12)
+        pts = gen_points(rng, rng.choice(STYLES), n)
+        t = {"kind": "layout", "fn": fn, "buf": hexpts(pts), "carrier": carrier, "readonly": readonly, "degrees": rng.random() < 0.5}
+        for _ in range(6):
+            if fn == "measure":
+                mode, spec0 = rng.choice([("whole", ["v", None, None, 1]), ("reversed", ["v", None, None, -1]), ("every_other", ["v", rng.randint(0, 1), None, 2]),
+                                          ("window", ["v"] + _win(rng.randint(0, 2), n - 2))])
+                t["mode"], t["args"] = mode, [spec0]
+                nn = len(range(n)[slice(*spec0[1:])])
+                ks = [k for k in (2, 3, 4) if k <= nn]
+                if not ks:
+                    continue
+                t["single"] = rng.random() < 0.3
+                ms = [rng.sample(range(nn), rng.choice(ks)) for _ in range(1 if t["single"] else rng.randint(1, 4))]
+                t["spec"] = ms[0] if t["single"] else ms
+            else:
+                got = gen_layout_args(rng, fn, n)
+                if got is None:
+                    continue
+                t["mode"], t["args"] = got
+            if layout_inside(t):
+                return t
+
+
 def fixed_tasks():
     """hand-written regression inputs (always run first)"""
     T = []
@@ -1029,6 +1451,11 @@ def fixed_tasks():
     # test-suite style right angles and a water-like triple
     T.append({"kind": "geom", "style": "lattice", "pts": hexpts([[1.0, 0, 0], [0, 0, 0], [0, 1.0, 0], [0, 1.0, 1.0]]), "motion": {"q": [1, 2, 3, 4], "h": [1, 1, 0], "t": ["1", "2", "3"]}, "degrees": True})
     T.append({"kind": "geom", "style": "lattice", "pts": hexpts([[1.0, 0, 0], [0, 0, 0], [0, 1.0, 0], [0, 1.0, 1.0]]), "motion": ident, "degrees": False})
+    # consecutive points / consecutive torsions along one chain buffer: arguments are overlapping views of the same memory
+    chain = hexpts([[0.0, 0.0, 0.0], [1.5, 0.25, 0.0], [2.0, 1.75, 0.5], [3.5, 2.0, 1.75], [4.0, 3.5, 1.5], [5.25, 3.75, 2.75], [5.5, 5.0, 3.5]])
+    T.append({"kind": "layout", "fn": "dm", "mode": "overlap", "buf": chain, "carrier": "C", "readonly": False, "degrees": False, "args": [["v", 0, 6, 1], ["v", 1, 7, 1]]})
+    T.append({"kind": "layout", "fn": "dihedral", "mode": "windows", "buf": chain, "carrier": "C", "readonly": False, "degrees": True,
+              "args": [["v", 0, 4, 1], ["v", 1, 5, 1], ["v", 2, 6, 1], ["v", 3, 7, 1]]})
     T.append({"kind": "conn", "symbols": ["O", "H", "H"], "geom": hexpts([[0, 0, -0.12], [0, -1.43, 0.98], [0, 1.43, 0.98]]), "thr": 1.2, "default_thr": True, "dc": None, "motion": ident, "perm": [2, 0, 1], "flat": True})
     return T
 
@@ -1046,6 +1473,10 @@ def gen_tasks(ctx: Ctx):
         T.append(gen_measure(rng))
     for _ in range(ctx.scale(1000, 5000)):
         T.append(gen_conn(rng))
+    # memory-layout / aliasing stream (generated last so the earlier streams keep their per-seed inputs)
+    for fn, nq, nt in (("dm", 700, 3500), ("dist", 300, 1500), ("angle", 300, 1500), ("dihedral", 400, 2000), ("measure", 250, 1250), ("conn", 250, 1250)):
+        for _ in range(ctx.scale(nq, nt)):
+            T.append(gen_layout(rng, fn))
     return T
 
 
@@ -1077,7 +1508,9 @@ def run(ctx: Ctx) -> Outcome:
     tasks = gen_tasks(ctx)
     evaluate(ctx, tasks, out)
     out.exhaustive = False
-    out.notes.append("all streams sampled from VERIF_SEED; 5 hand-written regression tasks run first")
+    out.notes.append("all streams sampled from VERIF_SEED; 7 hand-written regression tasks run first")
+    out.notes.append("layout stream: distribution keys layout:<fn>:<mode>, layout:carrier:<memory layout>[:readonly], layout:arguments_share_memory, "
+                     "layout:<fn>:distinct_equal_shape_overlapping_views (two different, equally shaped, memory-overlapping views — e.g. distance_matrix(P[:-1], P[1:]))")
     out.notes.append("transcendental step (sqrt/arccos/arctan2/degrees) evaluated in Python on the model's exact rational arguments; tolerance 1e-9 (1e-6 on exactly collinear triples)")
     return out
 
